@@ -11,7 +11,7 @@ import itertools
 
 import numpy as np
 
-from checks.common import hash_tag
+from checks.common import hash_tag, relayout, xf_build, xf_names
 from qmc import gen as G
 from qmc import oracle as O
 from qmc.loader import load
@@ -42,6 +42,10 @@ VARIANTS = (
 CLASSES = ["generic", "hermitian", "hermitian_repeat", "triu", "normal", "rank1", "q8int", "zero_first_col", "zero_subdiag", "identity", "zero", "near_hermitian", "near_triu", "scaled_2^-30", "scaled_2^30",
            "sp:cyclic_shift", "sp:cyclic_shift_q", "sp:exchange", "sp:lower_shift", "sp:upper_shift", "sp:companion", "sp:ones", "sp:path_laplacian",
            "mask:k", "mask:1k", "mask:ij", "mask:jk"]
+
+
+XF_CLASSES = [f"xf:{nm}" for nm in xf_names(3, 3) if not nm.startswith("sp:")] + [f"xfh:{nm}" for nm in xf_names(3, 3, hermitian=True) if not nm.startswith("sp:") and not nm.startswith("lay:")]
+CLASSES = CLASSES + XF_CLASSES
 
 
 def vname(fn, kw):
@@ -103,6 +107,9 @@ def make(cls, n, fill):
         P_ = np.ldexp(fill.quat(n, n, bits=3, lo=-16, hi=16), -22)
         for i in range(n):
             A[i, :i] = P_[i, :i]
+    elif cls.startswith("xf:") or cls.startswith("xfh:"):
+        A, lay = xf_build(cls.split(":", 1)[1], n, n, fill, hermitian=cls.startswith("xfh:"))
+        return A, None, lay
     elif cls.startswith("sp:"):
         A = G.special(cls[3:], n, fill)
     elif cls.startswith("mask:"):
@@ -116,7 +123,7 @@ def make(cls, n, fill):
         A = O.qeye(n)
     elif cls == "zero":
         A = np.zeros((n, n, 4))
-    return A, lam
+    return A, lam, "C"
 
 
 def run_case(case, seed):
@@ -125,10 +132,10 @@ def run_case(case, seed):
     fn = getattr(lib.schur, fn_name)
     n, tol, cls = case["n"], case["tol"], case["cls"]
     fill = G.Fill(seed, stream=hash_tag(f"{cls}/{n}"))
-    A, lam = make(cls, n, fill)
-    Aq = G.to_quat(A)
+    A, lam, lay = make(cls, n, fill)
+    Aq = relayout(G.to_quat(A), lay)
     nA = max(1.0, O.fro(A))
-    is_herm = cls in ("hermitian", "hermitian_repeat", "identity", "zero", "sp:exchange", "sp:ones", "sp:path_laplacian")
+    is_herm = cls in ("hermitian", "hermitian_repeat", "identity", "zero", "sp:exchange", "sp:ones", "sp:path_laplacian") or cls.startswith("xfh:")
     tags = {"fn": fn_name, "variant": vname(fn_name, kw), "cls": cls, "n": n, "tol": tol}
     fails = []
     states = []
